@@ -17,126 +17,12 @@ from ..astutil import dotted, src, walk_local, local_assignments
 from ..callgraph import CallGraph
 from ..must import analyze
 from ..report import AnalysisError
-
-MUTATING_METHODS = {"append", "extend", "insert", "remove", "pop", "clear", "update", "sort", "reverse", "add", "discard", "setdefault", "__setitem__"}
-
-
-def attr_writes(fn_node, receivers):
-    """[(attr, node)] for stores / in-place mutations of ``<recv>.<attr>`` in a function."""
-    out = []
-    for n in walk_local(fn_node, include_self=False):
-        targets = []
-        if isinstance(n, ast.Assign):
-            targets = n.targets
-        elif isinstance(n, (ast.AugAssign, ast.AnnAssign)):
-            targets = [n.target]
-        elif isinstance(n, ast.Delete):
-            targets = n.targets
-        for t in targets:
-            for e in ast.walk(t):
-                if isinstance(e, ast.Attribute) and isinstance(e.ctx, (ast.Store, ast.Del)) and dotted(e.value) in receivers:
-                    out.append((e.attr, n))
-                # self._x[k] = v  mutates _x
-                if isinstance(e, ast.Subscript) and isinstance(e.ctx, (ast.Store, ast.Del)):
-                    b = e.value
-                    if isinstance(b, ast.Attribute) and dotted(b.value) in receivers:
-                        out.append((b.attr, n))
-        if isinstance(n, ast.Call) and isinstance(n.func, ast.Attribute) and n.func.attr in MUTATING_METHODS:
-            b = n.func.value
-            if isinstance(b, ast.Attribute) and dotted(b.value) in receivers:
-                out.append((b.attr, n))
-    return out
-
-
-def stmt_writes(stmt, receivers, attrs):
-    return [a for a, _n in attr_writes(_wrap(stmt), receivers) if a in attrs]
-
-
-def _wrap(node):
-    m = ast.Module(body=[], type_ignores=[])
-    f = ast.FunctionDef(name="_", args=None, body=[node] if isinstance(node, ast.stmt) else [ast.Expr(value=node)], decorator_list=[])
-    return f
-
-
-def problem_receivers(fi):
-    """Names in a function that denote a Problem instance: ``self`` in Problem methods,
-    parameters annotated Problem / named problem."""
-    out = set()
-    if fi.cls is not None and fi.cls.name == "Problem":
-        out.add("self")
-    args = fi.node.args
-    for a in list(args.args) + list(args.kwonlyargs):
-        ann = ast.unparse(a.annotation) if a.annotation is not None else ""
-        if "Problem" in ann.replace('"', "").split(" | ") or ann.strip('"') == "Problem" or a.arg == "problem":
-            out.add(a.arg)
-    return out
-
+from .common import MUTATING_METHODS, attr_writes, stmt_writes, problem_receivers, problem_model
 
 def check(prog, rep):
-    P = prog.cls("Problem")
-    init = P.methods.get("__init__")
-    if init is None:
-        raise AnalysisError("Problem.__init__ not found")
-    init_attrs = {}
-    for a, n in attr_writes(init.node, {"self"}):
-        if isinstance(n, (ast.Assign, ast.AnnAssign)):
-            init_attrs[a] = n.value
-    rep.saw("Problem.__init__ attributes", sorted(init_attrs))
-
-    # ---- invalidator: a method whose body consists only of `self.x = None` resets (>= 2)
-    invalidators = []
-    for m in P.methods.values():
-        body = [s for s in m.node.body if not (isinstance(s, ast.Expr) and isinstance(s.value, ast.Constant))]
-        if len(body) >= 2 and all(
-            isinstance(s, ast.Assign) and len(s.targets) == 1 and isinstance(s.targets[0], ast.Attribute)
-            and dotted(s.targets[0].value) == "self" and isinstance(s.value, ast.Constant) and s.value.value is None
-            for s in body
-        ):
-            invalidators.append(m)
-    if len(invalidators) > 1:
-        raise AnalysisError("more than one invalidator-shaped method in Problem")
-    inval = invalidators[0] if invalidators else None
-    reset = {s.targets[0].attr for s in inval.node.body if isinstance(s, ast.Assign)} if inval else set()
-    rep.saw("invalidator", inval.qual if inval else None)
-
-    # ---- cache attributes: memo pattern (tested against None and assigned) anywhere in the package,
-    #      or assigned on a Problem receiver outside Problem.__init__ and initialised to None
-    memo = {}
-    assigned_outside = {}
-    for fi in prog.functions.values():
-        recv = problem_receivers(fi)
-        if not recv:
-            continue
-        if fi is init or fi is inval:
-            continue
-        tested = set()
-        for n in walk_local(fi.node, include_self=False):
-            if isinstance(n, ast.Compare) and len(n.ops) == 1 and isinstance(n.ops[0], (ast.Is, ast.IsNot)):
-                l = n.left
-                if isinstance(l, ast.Attribute) and dotted(l.value) in recv and isinstance(n.comparators[0], ast.Constant) and n.comparators[0].value is None:
-                    tested.add(l.attr)
-        for a, n in attr_writes(fi.node, recv):
-            assigned_outside.setdefault(a, []).append((fi, n))
-            if a in tested:
-                memo.setdefault(a, []).append((fi, n))
-    none_init = {a for a, v in init_attrs.items() if isinstance(v, ast.Constant) and v.value is None}
-    cache_attrs = set(memo) | (set(assigned_outside) & none_init & set(reset)) | set(reset)
-    # an attribute initialised to None, assigned elsewhere, and never a public model field
-    model_attrs = {a for a in init_attrs if a in assigned_outside and a not in cache_attrs}
-    # `_objective` is None-initialised and tested against None in solve(); it is a model field when a
-    # *public* method assigns it from an argument.
-    for a in list(cache_attrs):
-        for fi, n in assigned_outside.get(a, []):
-            if fi.cls is P and not fi.name.startswith("_") and isinstance(n, ast.Assign):
-                argnames = {x.arg for x in fi.node.args.args}
-                used = {m.id for m in ast.walk(n.value) if isinstance(m, ast.Name)}
-                if used & (argnames - {"self"}) and a not in reset:
-                    cache_attrs.discard(a)
-                    model_attrs.add(a)
-    rep.saw("model fields", sorted(model_attrs))
-    rep.saw("cache fields", sorted(cache_attrs))
-    if not model_attrs:
-        raise AnalysisError("no model fields found in Problem (idiom not recognised)")
+    pm = problem_model(prog, rep)
+    P, init, inval, reset = pm.P, pm.init, pm.inval, pm.reset
+    init_attrs, cache_attrs, model_attrs, assigned_outside = pm.init_attrs, pm.cache_attrs, pm.model_attrs, pm.assigned_outside
 
     # ---- R13.2 every cache attribute is reset by the invalidator
     for a in sorted(cache_attrs):
@@ -189,16 +75,14 @@ def check(prog, rep):
                     return True
             return False
 
-        exits, ma = analyze(m.node.body, transfer, frozenset({"clean"}), may_raise)
+        exits, ma = analyze(m.node.body, transfer, frozenset({"clean"}), may_raise, implicit="before")
         # the effect of a statement happens after its operands were evaluated: an implicit exception
         # leaves with the facts that held before the statement.
         bad_normal = [(k, n) for k, n, f in exits if k in ("return", "fall") and "clean" not in f]
         bad_raise = []
         for k, n, f in exits:
-            if k in ("raise", "implicit-raise"):
-                before = ma.at.get(id(n), f)
-                if "clean" not in before:
-                    bad_raise.append((k, n))
+            if k in ("raise", "implicit-raise") and "clean" not in f:
+                bad_raise.append((k, n))
         rep.ob(
             "R13.1", m.qual.split(":")[1], not bad_normal,
             ("every normal exit is preceded by the invalidator after the last write to "
